@@ -2,6 +2,7 @@
   C20 — gathering completes and reports what the servers confirmed (kernels).
 -/
 import Nice.Model.Gather
+import Nice.Props.C20Tick
 import Nice.Props.C19
 namespace Nice.Props.C20
 open Nice.Gather
